@@ -383,6 +383,7 @@ def run(ctx: Ctx, tier: str) -> Result:
     from .common import borrow
     borrow(ctx, res, tier, "c17", ("C17.FAN",), "C11.METRIC", "one report per metric definition (every definition x every processor)")
     borrow(ctx, res, tier, "c04", ("C04.INT",), "C11.LIMITS", "fire_count / fire_period are read as integers (-1 honoured), the default only for unparsable text")
+    borrow(ctx, res, tier, "c02", ("C02.TYPE",), "C11.FRAMES", "the frame_type argument decides which frames carry variables (none / all / the top one), compared by value")
     borrow(ctx, res, tier, "c03", ("C03.ORIG", "C03.FUNC", "C03.LINE"), "C11.PLACE", "an installed action is placed: the event's file, line and plain function name are what its location is compared with")
     borrow(ctx, res, tier, "c13", ("C13.HANDLE",), "C11.EACH", "every registration is a tracepoint of its own (a second registration is never answered with the first one's)")
     borrow(ctx, res, tier, "c13", ("C13.ADD",), "C11.PUBLISH", "what is published is the service's tracepoints plus the registered ones, each once")
